@@ -50,6 +50,6 @@ theorem litsCovered_goTree {p : Bytes} {t c : Re} (h : goTree p t = some c) : li
       | some m =>
         rw [hs] at h
         cases h
-        exact litsCovered_applyFlags m t 0
+        exact litsCovered_applyFlags m.1 t 0
 
 end UF.Re
